@@ -637,7 +637,8 @@ class Checker:
             if exc["type"] != exp_type:
                 self.rej("C04.exception-reaches-caller" if failing.outcome == "fault" else "C01.exception-type",
                          f"expected {exp_type}, observed {exc['type']}")
-            if failing.failing[2] is not None and exc.get("id") is not None and exc.get("id") != failing.failing[2]:
+            if failing.failing[2] is not None and exc.get("id") is not None and exc.get("id") != failing.failing[2] \
+                    and exc.get("id") not in getattr(self, "sibling_excids", {}).get(failing.tok, set()):
                 self.rej("C04.exception-reaches-caller", "exception object reaching the caller is not the one raised")
             if exp_type == "TransitionNotAllowed" and failing.outcome == "not-allowed" and "event" in exc:
                 if exc.get("event") != failing.event or exc.get("state") != self.state:
@@ -959,6 +960,10 @@ class Checker:
             tok = ctx.tok
         if (tok, cid) in mo:
             mo.discard((tok, cid))
+            if ev.get("exc"):
+                # a sibling (same group, running concurrently) failed as well: either failure may be the
+                # one that reaches the caller
+                self.__dict__.setdefault("sibling_excids", {}).setdefault(tok, set()).add(ev.get("excid"))
             return
         if ctx is None or cid not in ctx.open:
             self.rej("internal", f"cb_end {cid} without matching begin in current context")
